@@ -105,7 +105,7 @@ UM_REAL_STUB = {
 	"real": ["fake_trx.Application / FakeTRX", "transceiver.Transceiver", "burst_fwd.BurstForwarder", "ctrl_if.CTRLInterface",
 		"ctrl_if_trx.CTRLInterfaceTRX", "data_if.DATAInterface", "udp_link.UDPLink", "clck_gen.CLCKGen", "fake_pm.FakePM",
 		"gsm_shared.HoppingParams / TrainingSeqGMSK", "data_msg.TxMsg / RxMsg", "trx_list.TRXList", "argparse wiring of --trx definitions"],
-	"stub": ["osmo-bts-trx / trxcon above the sockets (seeded L1 stub actors)", "signal handling", "log output (captured)"],
+	"stub": ["osmo-bts-trx above the sockets (seeded L1 stub actors); the MS-side L1 is a stub actor too, except in the trxcon profile of C05/C10 where it is the real trxcon/trx_if.c (with libosmocore's fsm/timer/select/socket/talloc shimmed, csrc/trxcon/shim.c)", "signal handling", "log output (captured)"],
 	"simulated": ["both threads (socket thread, clock thread) under the seeded scheduler", "UDP sockets and select()", "monotonic clock / sleep",
 		"random.randint in the data path (seeded env stream)", "network faults on the L1->TRX direction: delay, reorder, duplication, loss"],
 }
@@ -154,7 +154,7 @@ REGISTRY = {
 	"C14": _c14,
 	"C02": lambda: _um("C02", "Profile C02: tuning/hopping heavy plans over a small frequency pool, bursts from every transceiver."),
 	"C03": lambda: _um("C03", runs_quick=5000, what="Profile C03 (45 % of runs): burst arrivals at any advance (-5..+25, far future, beyond the hyperframe), duplicates, power cycles, SETFORMAT changes. Race profile (55 % of runs, fine schedules): one arrival / POWEROFF / POWERON / SETFORMAT / SETFH / tuning datagram released at exactly the instant of a clock tick, both threads interleaved at source-line granularity (change-point sweep over the source lines of the race window, PCT with 2-3 change points, random walk), judged by a burst-centric linearisation-tolerant oracle with passive sniffer transceivers."),
-	"C05": lambda: _um("C05", "Profile C05: command heavy plans over every verb, argument count and value range, foreign source ports, non-CMD datagrams, response delays."),
+	"C05": lambda: _um("C05", "Profile C05 (70 % of runs): command heavy plans over every verb, argument count and value range, foreign source ports, non-CMD datagrams, response delays. trxcon profile (15 %): the real, unmodified trxcon/trx_if.c (ASan/UBSan driver process) is the MS-side L1 over a fault-free link: random phyif command sequences (RESET, POWERON/OFF, MEASURE, SETFREQ_H0, SETFREQ_H1 with 1..64 ARFCNs, SETSLOT, SETTA), bursts both ways; every response of fake_trx must be accepted by trxcon's parser (no retransmission, no FSM termination except on a refused command, queue drained), MEASURE results must come back with the commanded ARFCN and the level fake_trx answered. Race profile (15 %): see C03."),
 	"C10": lambda: _um("C10", "Profile C10: metadata heavy plans (SETPOWER, SETTA, FAKE_TOA/RSSI/CI at the protocol boundaries), NB/SB/AB/FB/dummy/random/EDGE bursts."),
 	"C12": lambda: _um("C12", "Profile C12: power histories over parents and children, random port plans."),
 	"C18": lambda: _um("C18", "Profile C18: FAKE_DROP / RFMUTE interleaved with burst trains, v0 and v1 links."),
